@@ -362,6 +362,9 @@ class OpsMixin(object):
             return Cond("phi", base.cond, Const(a) if isinstance(a, bool) else a, Const(b) if isinstance(b, bool) else b)
         if isinstance(base, (Num, Const, ListV, DictV, NTClassV, ModV, ExtV)):
             return False
+        if isinstance(base, PyObjV):
+            o = base.obj
+            return hasattr(o, "get_" + attr) or hasattr(o, "m_" + attr)
         raise AnalysisError("hasattr on %r" % (base,))
 
     def setattr(self, base, attr, val, node=None):
